@@ -50,8 +50,11 @@ theorem KeyCompat.oracle {tx later : TxIn} (h : KeyCompat tx later) : OracleComp
     delivery answers the same code and ends in an observably equal state as if the failed transaction had
     never been delivered — provided the later transaction does not touch an address that collides
     (same ledger key, different address) with a record the failed transaction created (`KeyCompat`), and
-    a deployment's created address is listed by the EVM result (`CreatedListed`).  Both hypotheses are
-    needed: see `failed_tx_invisible_statement_false` and the note on `CreatedListed` below. -/
+    a deployment's created address is listed by the EVM result (`CreatedListed`).  Since repair 26f8ae4
+    (a receiver of a wrong length gets no record) `KeyCompat` matters for 20-byte receivers and EVM
+    addresses only: see `failed_tx_invisible_recv` / `failed_tx_invisible_recv20` (RigoProofs/C05Recv.lean);
+    the former witness against the unrestricted statement (a 19-byte receiver) is evaluated in
+    RigoProofs/C05Collision.lean and no longer violates it. -/
 theorem failed_tx_invisible_partial :
     ∀ (g : Genesis) (s : St), Reachable g s → ∀ tx : TxIn, FeeSane s → 0 < s.active.minTrxFee →
     (∀ a, s.accts.fin[ledgerKey tx.from_]? = some a → a.bal < 2 ^ 256) →
